@@ -128,7 +128,7 @@ Lemma mk_prod_Ok l ow of_ b : mk_prod l ow of_ = Ok b ->
   exists f, b = OProd l (match ow with Some w => w | None => default_ps_w end) f.
 Proof.
   unfold mk_prod. destruct l as [|s l].
-  - destruct of_; [|discriminate]. intro E; inversion E; eauto.
+  - destruct of_ as [[| |]|]; try discriminate; intro E; inversion E; eauto.
   - destruct (forallb _ _); [|discriminate]. intro E; inversion E; eauto.
 Qed.
 
@@ -364,7 +364,8 @@ Theorem getitem_slice_spec (l : list (obj T)) w f s b :
   ogetitem dv (OProd l w f) (PSlice s) = Ok b ->
   exists ps ss, slice_positions (Z.of_nat (length l)) s = Ok ps /\
     Forall2 (fun p x => nth_error l (Z.to_nat p) = Some x) ps ss /\
-    b = OProd ss (match sub_w dv w with Some w' => w' | None => default_ps_w end) f.
+    exists f', b = OProd ss (match sub_w dv w with Some w' => w' | None => default_ps_w end) f' /\
+               (f <> FNone -> f' = f).
 Proof.
   cbn [ogetitem]. intro E. apply rbind_Ok in E as [ss [Es E]].
   unfold select_slice in Es. apply rbind_Ok in Es as [ps [Ep Es]].
@@ -372,8 +373,8 @@ Proof.
   - apply rall_Ok in Es. clear - Es. induction Es as [|p x ps ss Epx Es IH]; constructor; auto.
     destruct (nth_error l (Z.to_nat p)); inversion Epx; reflexivity.
   - unfold mk_prod in E. destruct ss as [|x ss].
-    + inversion E; reflexivity.
-    + destruct (forallb _ _); inversion E; reflexivity.
+    + destruct f; inversion E; eexists; split; try reflexivity; congruence.
+    + destruct (forallb _ _); [|discriminate]. destruct f; inversion E; eexists; split; try reflexivity; congruence.
 Qed.
 
 (* a slice with a non-zero step never raises IndexError: every position is a valid index *)
@@ -528,3 +529,64 @@ Proof.
   intros Hn Hw. rewrite Hn in E4. rewrite E4. destruct (ts_w t); try reflexivity. exfalso. eapply Hw. reflexivity.
 Qed.
 End DP4.
+
+(* ------------------------------------------------------------ chains of dtype derivations *)
+Section DP5.
+Context {T : Type} `{Num T}.
+Variable dv : dvariants.
+
+Inductive cop := CAstype (d : dtype) | CReal | CComplex.
+Definition run_cop (a : obj T) (op : cop) : res (obj T) :=
+  match op with CAstype d => oastype dv a d | CReal => oreal_space dv a | CComplex => ocomplex_space dv a end.
+
+(* every step is applied to the previous result or (flag) again to the source *)
+Fixpoint run_chain (src cur : obj T) (steps : list (bool * cop)) : res (obj T) :=
+  match steps with
+  | [] => Ok cur
+  | (from_src, op) :: r => rbind (run_cop (if from_src then src else cur) op) (fun x => run_chain src x r)
+  end.
+
+Lemma run_cop_skel a op b : run_cop a op = Ok b -> skel_of b = skel_of a.
+Proof.
+  destruct op; cbn; intro E.
+  - eapply oastype_skel; eassumption.
+  - apply oreal_space_spec in E. tauto.
+  - apply ocomplex_space_spec in E. tauto.
+Qed.
+
+(* whatever chain of astype / real_space / complex_space, restarted from the source at will:
+   the result has the shapes, partitions and product structure of the source *)
+Theorem chain_skel : forall steps (src cur b : obj T),
+  skel_of cur = skel_of src -> run_chain src cur steps = Ok b -> skel_of b = skel_of src.
+Proof.
+  induction steps as [|[fs op] r IH]; intros src cur b Hc E; cbn in E.
+  - inversion E; subst; assumption.
+  - apply rbind_Ok in E as [x [Ex E]]. apply (IH src x b); [|exact E].
+    apply run_cop_skel in Ex. destruct fs; congruence.
+Qed.
+
+Lemma run_chain_app src cur l1 l2 :
+  run_chain src cur (l1 ++ l2) = rbind (run_chain src cur l1) (fun c => run_chain src c l2).
+Proof.
+  revert cur. induction l1 as [|[fs op] l1 IH]; intro cur; cbn; [reflexivity|].
+  destruct (run_cop _ op); cbn; auto.
+Qed.
+
+(* ... and its dtypes are decided by the LAST step alone: real after real_space, complex after
+   complex_space, d after astype(d) -- however the earlier steps went (no cache can matter) *)
+Theorem chain_last_step : forall steps fs op (src b : obj T),
+  run_chain src src (steps ++ [(fs, op)]) = Ok b ->
+  match op with
+  | CReal => Forall (fun t => is_real_dt (ts_dtype t) = true) (leaves b)
+  | CComplex => Forall (fun t => is_complex_floating (ts_dtype t) = true) (leaves b)
+  | CAstype d => is_available d = true -> Forall (fun t => ts_dtype t = d) (leaves b)
+  end.
+Proof.
+  intros steps fs op src b E. rewrite run_chain_app in E. apply rbind_Ok in E as [c [_ E]].
+  cbn in E. apply rbind_Ok in E as [x [Ex E]]. inversion E; subst x.
+  destruct op; cbn in Ex.
+  - intro Ha. eapply oastype_dtype; eassumption.
+  - apply oreal_space_spec in Ex. tauto.
+  - apply ocomplex_space_spec in Ex. tauto.
+Qed.
+End DP5.
